@@ -312,6 +312,8 @@ def units_c05(tier):
                 us.append(Emit(fam, op, k))
         us.append(Emit(fam, "bulkget", 2, m=ctxless_int(3), ns=1))
         us.append(Emit(fam, "bulkget", 1, m=ctxless_int(1), ns=0))
+        us.append(EmitAfterReconfigure(fam, False))
+        us.append(EmitAfterReconfigure(fam, True))
     return us
 
 
@@ -334,4 +336,118 @@ def units_c19(tier):
     for k in ((0, 1, 2) if tier == "quick" else (0, 1, 2, 3)):
         us.append(TrapDelivery(k, True))
     us.append(TrapDelivery(1, False))
+    us.append(TrapReceiver(False))
+    us.append(TrapReceiver(True))
     return us
+
+
+class EmitAfterReconfigure(WireUnit):
+    """Two requests on one client with a (same-family) credential change in between: the second datagram
+    carries the credentials in force when it is sent (C05; also the C18 clause on what reaches the message layer)."""
+    props = ("C05", "C18")
+    target = "puresnmp.api.raw:Client.multiget"
+
+    def __init__(self, family, temporary):
+        self.family, self.temporary = family, temporary
+        mv = family.lower()
+        self.functions = (self.target, "puresnmp.api.raw:Client._send", "puresnmp.api.raw:Client.configure",
+                          "puresnmp.api.raw:Client.reconfigure",
+                          "puresnmp_plugins.mpm.%s:%sMPM.encode" % (mv, family),
+                          "puresnmp_plugins.security.%s:SNMP%sSecurityModel.generate_request_message" % (mv, mv))
+        self.name = "%s multiget, %s(credentials=other community), multiget" % (family, "reconfigure" if temporary else "configure")
+
+    def run(self, interp):
+        ctx, rt = interp.ctx, self.rt
+        sent = []
+        tmo = get_cls(rt, interp, "puresnmp.exc:Timeout")
+
+        def sender(i, a, k):
+            sent.append((a, k))
+            raise PyExc(rt.instantiate(i, tmo, ["stop"], {}))
+        c1, c2 = self.creds(interp, self.family), self.creds(interp, self.family)
+        rt.call_hooks["Opaque"] = self.x.h_opaque_call
+        client = rt.instantiate(interp, get_cls(rt, interp, "puresnmp.api.raw:Client"), ["192.0.2.1", c1],
+                                {"sender": Builtin("sender", sender)})
+        oid = ctx.fresh_oid("oid")
+        fn = get_func(rt, interp, self.target)
+
+        def request():
+            try:
+                interp.call(BoundMethod(fn, client), [[oid]], {})
+            except PyExc as pe:
+                if not exc_is(pe.obj, tmo):
+                    raise
+        request()
+        if self.temporary:
+            mgr = interp.call(BoundMethod(get_func(rt, interp, "puresnmp.api.raw:Client.reconfigure"), client), [], {"credentials": c2})
+            interp.run_ctxmgr(mgr, lambda v: request())
+        else:
+            interp.call(BoundMethod(get_func(rt, interp, "puresnmp.api.raw:Client.configure"), client), [], {"credentials": c2})
+            request()
+        request()
+        ok = len(sent) == 3
+        for p in self.props:
+            interp.ctx.check(oname(p, self.target, "ensures", "three-datagrams"), ok)
+        if not ok:
+            return "?"
+        version = 0 if self.family == "V1" else 1
+        expect = [c1, c2, c1 if self.temporary else c2]
+        for n, (cr, (a, k)) in enumerate(zip(expect, sent)):
+            F = rfc.Forms("x690")
+            rid = SInt(z3.Int("clock!%d" % n))
+            spec = rfc.community_message(version, SBytes(rt.f_str_ascii(cr.fields["community"].e)),
+                                         rfc.pdu(rfc.GET, rid, 0, 0, [(oid, None)], F), F)
+            for p in self.props:
+                ctx.check(oname(p, self.target, "ensures", "request-%d-carries-the-credentials-in-force-when-it-is-sent" % (n + 1)),
+                          interp.eq(a[1], spec))
+        return "emitted"
+
+
+class TrapReceiver(VU):
+    """SNMPTrapReceiverProtocol.datagram_received: forwards once, touches nothing else - whatever the callback does."""
+    props = ("C19",)
+    label = "proved"
+    target = "puresnmp.transport:SNMPTrapReceiverProtocol.datagram_received"
+    functions = (target,)
+
+    def __init__(self, callback_raises):
+        self.callback_raises = callback_raises
+        self.name = "SNMPTrapReceiverProtocol.datagram_received[callback %s]" % ("raises" if callback_raises else "returns")
+
+    def setup(self, rt, interp):
+        self.rt = rt
+
+    def run(self, interp):
+        ctx, rt = interp.ctx, self.rt
+        touched, calls = [], []
+        tcls = PyClass("transport(contract-slot)", [], kind="builtin")
+        for m in ("close", "abort", "sendto", "get_extra_info", "is_closing"):
+            tcls.native_attrs[m] = Builtin("transport." + m, (lambda mm: lambda i, a, k: touched.append(mm))(m))
+        boom = Obj(rt.builtin_class("RuntimeError"), {"args": ("decode failed",)})
+
+        def callback(i, a, k):
+            calls.append(a[0])
+            if self.callback_raises:
+                raise PyExc(boom)
+        proto = Obj(get_cls(rt, interp, "puresnmp.transport:SNMPTrapReceiverProtocol"),
+                    {"callback": Builtin("callback", callback), "transport": Obj(tcls)})
+        data = ctx.fresh_bytes("datagram")
+        addr = (ctx.fresh_str("peer"), ctx.fresh_int("port"))
+        exc = None
+        try:
+            interp.call(BoundMethod(get_func(rt, interp, self.target), proto), [data, addr], {})
+        except PyExc as pe:
+            exc = pe.obj
+        T = self.target
+        ok = len(calls) == 1 and isinstance(calls[0], Obj) and calls[0].cls.name == "SocketResponse"
+        ctx.check(oname("C19", T, "ensures", "callback-invoked-exactly-once-with-a-SocketResponse"), ok)
+        if ok:
+            info = calls[0].fields.get("info")
+            ctx.check(oname("C19", T, "ensures", "with-the-datagram-and-the-senders-address"),
+                      And(interp.eq(calls[0].fields.get("data"), data), isinstance(info, Obj) and And(
+                          interp.eq(info.fields.get("address"), addr[0]), interp.eq(info.fields.get("port"), addr[1]))))
+        ctx.check(oname("C19", T, "frame", "the-listening-transport-is-never-touched(a-bad-datagram-does-not-stop-later-deliveries)"),
+                  not touched)
+        if self.callback_raises:
+            ctx.check(oname("C19", T, "raises", "the-callbacks-exception-is-left-to-the-event-loop"), exc is boom or exc is None)
+        return "done"
